@@ -173,14 +173,58 @@ def _term_row(draw, P, paths):
 
 def _event(draw, P, paths, rows, state):
     """append one body event"""
-    x = draw(st.integers(0, 19))
+    x = draw(st.integers(0, 20))
     n = len(paths.sp)
+    if x == 20 and P['splits'] and P['max_sub'] >= 3:
+        # a spine split twice and all three sub-spines joined again on ONE line
+        ks = [k for k in range(n) if paths.sp.count(paths.sp[k]) == 1]
+        if ks and len(paths.sp) + 2 <= P['max_width']:
+            k = draw(st.sampled_from(ks))
+            for step in range(2):
+                kk = k + (draw(st.integers(0, 1)) if step else 0)
+                cells, new = [], []
+                for j, s_ in enumerate(paths.sp):
+                    if j == kk:
+                        cells.append(G.op_cell('*^'))
+                        new += [s_, s_]
+                    else:
+                        cells.append(G.nullinterp_cell())
+                        new.append(s_)
+                paths.sp = new
+                rows.append(_row(cells))
+                rows.append(_row([_data_cell(draw, P, paths.typ(j)) for j in range(len(paths.sp))]))
+            sp = paths.sp[k]
+            cells, new = [], []
+            for j, s_ in enumerate(paths.sp):
+                if s_ == sp:
+                    cells.append(G.op_cell('*v'))
+                    if j == k:
+                        new.append(s_)
+                else:
+                    cells.append(G.nullinterp_cell())
+                    new.append(s_)
+            paths.sp = new
+            rows.append(_row(cells))
+            rows.append(_row([_data_cell(draw, P, paths.typ(j)) for j in range(len(paths.sp))]))
+            return
+        x = 0
     if x < 9:
         rows.append(_row([_data_cell(draw, P, paths.typ(k)) for k in range(n)]))
     elif x < 11 and P['barlines']:
         state['bars'] += 1
         b = draw(G.barlines(number=state['bars'] if P['numbered_bars'] else None, hidden=P['hidden_bars']))
-        rows.append(_row([dict(b) for _ in range(n)]))
+        cells = [dict(b) for _ in range(n)]
+        if P['hidden_bars'] and not b.get('hidden') and draw(st.integers(0, 3)) == 0:
+            # the same barline, invisible in some of the spines only
+            for c in cells:
+                if draw(st.integers(0, 2)) == 0:
+                    i = len(c['t']) - len(c['t'].lstrip('='))
+                    j = i
+                    while j < len(c['t']) and c['t'][j].isdigit():
+                        j += 1
+                    c['t'] = c['t'][:j] + '-' + c['t'][j:]
+                    c['hidden'] = True
+        rows.append(_row(cells))
     elif x < 13 and P['interp_rows']:
         rows.append(_row([_interp_cell(draw, P, paths.typ(k)) for k in range(n)]))
     elif x == 13 and P['comments']:
